@@ -204,7 +204,7 @@ func (w *verifC19) genIdentity() verifGen {
 	case 0:
 		g.t = asserts.TestOnlyType
 		pk := verifOddPK[c.Draw("pk", len(verifOddPK))]
-		if c.Chance("dot-pk", 1, 25) {
+		if c.Chance("dot-pk", 1, 120) {
 			pk = verifDotPK[c.Draw("which-dot", 2)]
 		}
 		g.h["primary-key"] = pk
@@ -214,7 +214,7 @@ func (w *verifC19) genIdentity() verifGen {
 		g.t = asserts.TestOnly2Type
 		pk1 := []string{"a", "b*", "c d"}[c.Draw("pk1", 3)]
 		pk2 := []string{"x", "y:z"}[c.Draw("pk2", 2)]
-		if c.Chance("dot-pk", 1, 25) {
+		if c.Chance("dot-pk", 1, 120) {
 			pk1 = verifDotPK[c.Draw("which-dot", 2)]
 			if c.Chance("dot-pk2", 1, 2) {
 				pk2 = verifDotPK[c.Draw("which-dot", 2)]
@@ -318,7 +318,7 @@ func (w *verifC19) opAdd(faults bool) {
 		case 9, 19, 29:
 			how = "foreign-signature"
 		}
-		if how == "genuine" && c.Chance("stray-new-line", 1, 120) {
+		if how == "genuine" && c.Chance("stray-new-line", 1, 1000) {
 			how = "empty-line-before-signature-via-stream"
 		}
 	}
@@ -429,7 +429,9 @@ func (w *verifC19) add(label string, a asserts.Assertion, good bool) {
 		}
 		m.fmts[format] = e
 		if verifHasDotPK(m.pk) {
-			w.dots = append(w.dots, id)
+			if len(w.dots) == 0 || w.dots[len(w.dots)-1] != id {
+				w.dots = append(w.dots, id)
+			}
 			c.Count("probe:dot-primary-key-stored")
 		}
 		if len(m.fmts) > 1 {
